@@ -195,7 +195,7 @@ def step (st : OState) (toks : List String) : OState × String :=
   | "closeg" :: t :: h :: rest =>
     match t.toNat?, h.toNat?, parseClose [] rest with
     | some t, some h, some ops =>
-      let ps := GocoinV.Persist.Idx.restartPairs GocoinV.Gen.C07Facts.closeSaveGuard { tip := t, height := h, dTip := t, dHeight := h } ops
+      let ps := GocoinV.Persist.Idx.restartPairs GocoinV.Gen.C07Facts.closeSaveGuard GocoinV.Gen.C07Facts.commitSetsDirty GocoinV.Gen.C07Facts.undoSetsDirty { tip := t, height := h, dTip := t, dHeight := h } ops
       (st, "ok" ++ String.join (ps.map (fun p => s!" {p.1.1}:{p.1.2}:{p.2.1}:{p.2.2}")))
     | _, _, _ => (st, "bad-op")
   | "pos" :: a :: len :: rest =>
